@@ -3,12 +3,12 @@
 package stream
 
 import (
-	"strings"
 	"bytes"
 	"context"
 	"fmt"
 	"io"
 	"math/rand"
+	"strings"
 	"testing"
 
 	"tunnox-core/internal/constants"
